@@ -1,11 +1,11 @@
 SPECIFICATION Spec
 CONSTANTS
-  Dev <- DevXh
+  Dev <- DevAsIs
   B = 3
   RecMax = 1
-  Bodies <- BodiesThree
-  Kinds <- KindsMC3
-  MaxDepth = 3
+  Bodies <- BodiesAll
+  Kinds <- KindsMC
+  MaxDepth = 2
   Progs <- Programs
 INVARIANT TypeOK
 INVARIANT OutcomeMatches
